@@ -76,6 +76,17 @@ def cases(tier):
                 s["opts"]["dur"] = 6 * H
                 s["id"] = {"skel": name, "devs": [{"k": cname}] + [{"k": e} for e in extra]}
                 out.append(s)
+    # valve setting controls: the setting changes during the run so that the valve has to change status
+    for name in ("chain", "tee", "loop"):
+        for vt, s0, s1 in (("PRV", 20.0, 80.0), ("PRV", 80.0, 20.0), ("PSV", 47.0, 20.0), ("FCV", 1.0, 0.005), ("TCV", 0.0, 50.0)):
+            s = clone(netspace.skeletons()[name])
+            if netspace.apply(s, {"k": "valve", "l": "p2", "vt": vt, "setting": s0}) is None or not netspace.valid(s):
+                continue
+            s["controls"] = [{"kind": "time", "t": 2 * H, "link": "p2", "attr": "setting", "value": s1},
+                             {"kind": "time", "t": 4 * H, "link": "p2", "attr": "setting", "value": s0}]
+            s["opts"]["dur"] = 6 * H
+            s["id"] = {"skel": name, "devs": [{"k": "valve", "l": "p2", "vt": vt, "setting": s0}, {"k": "ctl_setting"}]}
+            out.append(s)
     return out
 
 
